@@ -72,7 +72,9 @@ class RenamedProg(Prog):
 
 
 STR = ["quote.c", "str_rchr.c", "str_chr.c", "stralloc_opys.c", "stralloc_opyb.c", "stralloc_cats.c", "stralloc_catb.c",
-       "stralloc_cat.c", "stralloc_copy.c", "stralloc_pend.c", "byte_copy.c", "byte_rchr.c"]
+       "stralloc_cat.c", "stralloc_copy.c", "stralloc_pend.c", "byte_copy.c", "byte_rchr.c",
+       # further members of the byte/str family, so that a rewrite of a parser that uses them still links
+       "byte_chr.c", "byte_cr.c", "byte_zero.c", "str_start.c"]
 
 
 def parser_loops(repo):
@@ -234,7 +236,7 @@ def _obligations(tier):
             lib=["harness/C17/arena_small.c", "ideal_substdio.c"],
             sysrename=["malloc", "realloc", "_exit"],
             defines={"ARENA_SLOTS": 4, "ARENA_CAP": 12},
-            grid=[{"FORM": f} for f in range(1, 21)],
+            grid=[{"FORM": f} for f in range(1, 24)],
             unwind={"strlen": 64, "substdio_put": 64}, unwind_default=34,
             backend="cadical", timeout=600,
             functions=["token822.c:token822_addrlist", "token822.c:gotaddr", "token822.c:token822_unquote", "token822.c:token822_reverse",
@@ -256,7 +258,7 @@ def _obligations(tier):
             lib=["harness/C17/arena_small.c", "ideal_substdio.c"],
             sysrename=["malloc", "realloc", "_exit"],
             defines={"ARENA_SLOTS": 4, "ARENA_CAP": 12, "STAB": 1},
-            grid=[{"FORM": f} for f in range(1, 21)],
+            grid=[{"FORM": f} for f in range(1, 24)],
             unwind={"strlen": 64, "substdio_put": 64, "reference_read": 58}, unwind_default=34,
             backend="cadical", timeout=600,
             functions=["token822.c:token822_unparse", "token822.c:needspace", "token822.c:token822_addrlist", "qmail-inject.c:rwtocc", "qmail-inject.c:rwgeneric"],
